@@ -47,7 +47,17 @@ def is_balanced(case):
 
 # ---- generator ----
 
+HUGE = (65538, 65537, 131074)
+
+
 def gen(rng, tier, spec):
+    if rng.chance(1, 25):
+        # huge participant count (does not fit in 16 bits) with only 2-3 threads: far too few arrivals, nobody
+        # may ever be released (expected verdict: deadlock with everybody blocked); NOT wf, the count bound of
+        # early_return still applies
+        nt = rng.range(2, 3)
+        progs = [[[WAIT] for _ in range(rng.range(1, 2))] for _ in range(nt)]
+        return {'cfg': [rng.pick(list(HUGE))], 'progs': progs, 'sched': R.any_sched(rng, nt, 30, ((14, 0), (2, 1)))}
     nt = rng.weighted([(2, 1), (5, 2), (5, 3), (4, 4)])
     gens = rng.range(1, 3)
     progs = []
@@ -112,10 +122,46 @@ def _verdict(lines):
     return v[0] if v else 3
 
 
+def _count_bound(case, lines):
+    """valid for EVERY client program of Barrier(n): nobody returns before n arrivals have been made; without
+    drops every generation consumes exactly n arrivals, so a thread's m-th return needs n*m arrivals"""
+    n = case['cfg'][0] if case['cfg'] else 0
+    progs = case['progs']
+    nodrop = all(drop_pos(p) is None for p in progs)
+    total, inv = 0, {}
+    for i, t, k, v in _events(lines):
+        if k == K['INVOKE']:
+            total += 1
+            inv[t] = inv.get(t, 0) + 1
+        elif k == K['RET']:
+            need = n * inv.get(t, 1) if nodrop else n
+            if total < need:
+                return ('thread %d returned from its wait #%d at trace line %d after %d of %d arrivals'
+                        % (t, inv.get(t, 0), i, total, need))
+    return None
+
+
+def mon_rearm_outside_lock(case, lines):
+    """trace discipline: threshold_/count_/generation_ are plain fields (invisible to the shim) that may only be
+    touched under the barrier mutex; the visible part of the last arriver's bump/re-arm/notify triple is the
+    notify_all, which must be issued while the thread holds the mutex (model: barrier_notify_under_mutex)"""
+    holds = set()
+    for i, t, k, v in _events(lines):
+        if k in (K['LOCK'], K['CV_WAKE']):
+            holds.add(t)
+        elif k in (K['UNLOCK'], K['CV_SLEEP']):
+            holds.discard(t)
+        elif k == K['NOTIFY_ALL'] and t not in holds:
+            return ('thread %d calls notify_all at trace line %d without holding the barrier mutex: the re-arm of the '
+                    'generation is not atomic with the release of the waiters' % (t, i))
+    return None
+
+
 def mon_early_return(case, lines):
     """a thread's n-th wait returned before some participant that has not dropped earlier invoked its n-th wait"""
-    if not is_wf(case):
-        return None
+    r = _count_bound(case, lines)
+    if r or not is_wf(case):
+        return r
     progs = case['progs']
     nt = len(progs)
     inv = [0] * nt
@@ -182,4 +228,5 @@ def mon_final_state(case, lines):
     return None
 
 
-MONITORS = {'early_return': mon_early_return, 'lost_wakeup': mon_lost_wakeup, 'final_state': mon_final_state}
+MONITORS = {'early_return': mon_early_return, 'lost_wakeup': mon_lost_wakeup, 'final_state': mon_final_state,
+            'rearm_outside_lock': mon_rearm_outside_lock}
